@@ -58,6 +58,7 @@ type Exec struct {
 	CancelSim time.Duration // when the context was seen done (0 = never)
 	ReturnSim time.Duration // when Wait returned (0 = never)
 	Returned  bool
+	Killed    bool // killed through Process.Kill / Signal (cancellation), not by itself
 	Behaviour string
 }
 
@@ -182,6 +183,7 @@ func (p *Proc) kill() error {
 	if p.signal == "" {
 		p.signal = "killed"
 	}
+	p.rec.Killed = true
 	rt.Cur.Kill(p.task)
 	return nil
 }
@@ -438,13 +440,18 @@ func (c *Cmd) Start() error {
 				}
 				r = nil
 			}
-			p.finish()
 			if r != nil {
 				panic(r) // kill sentinel or a real bug in a behaviour
 			}
 		}()
 		beh(p, json.RawMessage(args))
 	})
+	// runs however the task ends, including a kill before its first step
+	p.task.OnExit = func() {
+		if !p.exited {
+			p.finish()
+		}
+	}
 	rt.After(d)
 	return nil
 }
@@ -678,6 +685,9 @@ func runScript(p *Proc, args json.RawMessage) {
 			p.Hold(st.Fds, time.Duration(st.Dur))
 		case "exit":
 			p.Exit(st.Code)
+		case "signal":
+			p.signal = "terminated"
+			p.Exit(-1)
 		case "touch":
 			p.Touch(st.Path, []byte(strings.Join(p.Argv, " ")))
 		case "sigpipe-ignore":
